@@ -322,7 +322,8 @@ MetricKinds(a, v, S) ==
     (IF a.def = 1
      THEN (IF Exact(v.own[1], v.own[2], v.m, S) THEN {} ELSE {"default-metric"})
      ELSE (IF WithinHalves(v.own, v.m, IF a.exact = 1 THEN 1 ELSE 2, S) THEN {} ELSE {"metric"}))
-    \cup (IF v.sk # <<>> /\ ~WithinHalves(v.sk, v.m, IF a.def = 1 THEN 0 ELSE IF a.exact = 1 THEN 1 ELSE 2, S)
+    \* (skrifa rounds the MVAR delta to an integer: a value within 1/2 of m may come out one unit away)
+    \cup (IF v.sk # <<>> /\ ~WithinHalves(v.sk, v.m, IF a.def = 1 THEN 0 ELSE 2, S)
           THEN {"metric-skrifa"} ELSE {})
 MetricAt(a, S) ==
     UNION {{[g |-> "", l |-> a.l, k |-> f, d |-> a.vals[k]] : f \in MetricKinds(a, a.vals[k], S)} : k \in 1..Len(a.vals)}
